@@ -41,7 +41,11 @@ static void value_stub(V *out, const C *c, unsigned *off, unsigned len, bool str
     unsigned o = vf_u32(); vf_assume((strict ? (o > *off) : (o >= *off)) && o < 0xFFFFFF00u);
     vf_assume(def ? (o <= len && o > *off) : (o >= len));
 #ifdef STEER   /* steering: every callee result is a REAL one-digit number, so the counterexample text is real JSON material */
+#if STEER == 4   /* ... or (top-level twin) the real empty array  []  : a valid CONTAINER document, as in the property's quantifier */
+    vf_assume(def && o == *off + 2 && o <= len && c[*off] == C('[') && c[*off + 1] == C(']'));
+#else
     vf_assume(def && o == *off + 1 && c[*off] >= C('1') && c[*off] <= C('9'));
+#endif
 #endif
     new (out) V{};
     if (def) { out->type_ = ValueType::UIntLong; out->payload_ = id; }
